@@ -104,4 +104,75 @@ def offsetFromAxesTol (rtol atol : Rat) (dom ran : Axis Rat) : Except ShiftErr N
   else if ¬ isClose rtol atol s 0 then .error .shiftedUnchanged
   else .ok 0
 
+/-! ### `odl/util/numerics.py::apply_on_boundary` and `discr_ops.py::_scale_bdry_cells`
+
+The functions applied on the boundary are affine maps `x ↦ a·x + b` (a pair `(a, b)`); `none`
+is "this side of this axis is skipped" (`which_boundaries` false or a `None` function).  The
+`i`-th step carries the axis `axis_order[i]` together with `func[i]` and `which_boundaries[i]`
+(the code zips the three sequences). -/
+
+structure BStep (K : Type) where
+  ax : Nat
+  fl : Option (K × K)
+  fr : Option (K × K)
+
+/-- `ROp.axes`: `ResizingOperator.axes`, the axes in which the size changes. -/
+def ROp.axes {K : Type} (op : ROp K) : List Nat :=
+  (List.range op.sIn.length).filter (fun i => op.sIn.getD i 0 ≠ op.sOut.getD i 0)
+
+section boundary
+variable {K : Type} [Add K] [Mul K]
+
+def affApply (f : K × K) (x : K) : K := f.1 * x + f.2
+
+/-- `idx` lies in the slices remembered from the axes processed so far (`only_once`): `st a` says
+whether the left / right boundary of axis `a` was processed; the entry of the current axis is
+overwritten by the code (`slc_l[ax] = 0`). -/
+def inSlices (shape : List Nat) (st : Nat → Bool × Bool) (ax : Nat) (idx : List Nat) : Bool :=
+  (List.range shape.length).all fun a =>
+    a = ax || (!((st a).1 && idx.getD a 0 = 0) && !((st a).2 && idx.getD a 0 + 1 = shape.getD a 0))
+
+/-- One pass of the loop body of `apply_on_boundary`: left boundary, then right boundary (which
+sees the result of the left one — on an axis of length 1 both act on the same entry). -/
+def bStep (onlyOnce : Bool) (shape : List Nat) (st : Nat → Bool × Bool) (s : BStep K)
+    (A : List Nat → K) : List Nat → K :=
+  let sel : List Nat → Bool := fun idx => !onlyOnce || inSlices shape st s.ax idx
+  let A1 : List Nat → K := fun idx =>
+    match s.fl with
+    | some f => if idx.getD s.ax 0 = 0 ∧ sel idx = true then affApply f (A idx) else A idx
+    | none => A idx
+  fun idx =>
+    match s.fr with
+    | some f =>
+      if idx.getD s.ax 0 + 1 = shape.getD s.ax 0 ∧ sel idx = true then affApply f (A1 idx)
+      else A1 idx
+    | none => A1 idx
+
+/-- `apply_on_boundary(array, func, only_once, which_boundaries, axis_order)` on the box `shape`. -/
+def applyOnBoundary (onlyOnce : Bool) (shape : List Nat) :
+    (Nat → Bool × Bool) → List (BStep K) → (List Nat → K) → (List Nat → K)
+  | _, [], A => A
+  | st, s :: rest, A =>
+    applyOnBoundary onlyOnce shape
+      (fun a => if a = s.ax then (s.fl.isSome, s.fr.isSome) else st a) rest
+      (bStep onlyOnce shape st s A)
+
+/-- `_scaling_func_list(bdry_fracs, exponent=1.0)`: per axis the pair `x ↦ fl·x`, `x ↦ fr·x`. -/
+def scaleSteps [Zero K] : Nat → List (K × K) → List (BStep K)
+  | _, [] => []
+  | ax, (l, r) :: rest => ⟨ax, some (l, 0), some (r, 0)⟩ :: scaleSteps (ax + 1) rest
+
+/-- `_scale_bdry_cells(arr, space)`: `apply_on_boundary(arr, func_list, only_once=False)`. -/
+def scaleBdryCells [Zero K] (shape : List Nat) (fracs : List (K × K)) (A : List Nat → K) :
+    List Nat → K :=
+  applyOnBoundary false shape (fun _ => (false, false)) (scaleSteps 0 fracs) A
+
+/-- The weight the model of the adjoint uses: product over the axes of `bdryFrac`. -/
+def bdryFracProd (one : K) : Nat → List Nat → List (K × K) → List Nat → K
+  | ax, n :: shape, (l, r) :: fracs, idx =>
+    bdryFrac one n l r (idx.getD ax 0) * bdryFracProd one (ax + 1) shape fracs idx
+  | _, _, _, _ => one
+
+end boundary
+
 end OdlModel.Resize
